@@ -368,7 +368,7 @@ func c11ImportCache(in map[string]any) map[string]any {
 			}
 		}
 	}
-	return map[string]any{"st": "ok", "serial": len(bad) == 0, "mismatches": bad, "hang": hang, "adds": adds,
+	return map[string]any{"st": "ok", "serial": len(bad) == 0, "mismatches": bad, "hang": hang, "adds": atomic.LoadInt64(&adds),
 		"evals": n * rounds, "nontrivial": n * rounds}
 }
 
